@@ -36,6 +36,25 @@ type refModel struct {
 	sw       Switches
 	podByIP  map[string]*Pod
 	firstDir string // D11: which dispatch chain FORWARD reaches first ("egress" or "ingress")
+	// over, when set, carries what named event-gap switches (events.go) say galaxy's incrementally maintained
+	// state is where it differs from the current API state: membership of an address in a policy's selected set
+	// or in a rule's pod-peer set, and pods that no handler has looked at yet (no pod chain).
+	over *overrides
+}
+
+// overrides is the effect of the enabled event-gap switches on the reference evaluator.
+type overrides struct {
+	memb      map[string]map[string]bool // set name -> address -> member?
+	invisible map[string]bool            // pod key -> galaxy has installed nothing for the pod
+}
+
+func (o *overrides) member(set, addr string, truth bool) bool {
+	if o != nil {
+		if v, ok := o.memb[set][addr]; ok {
+			return v
+		}
+	}
+	return truth
 }
 
 func newRefModel(cl *Cluster, sw Switches, firstDir string) *refModel {
@@ -91,8 +110,9 @@ func mergedBlocksMatch(peers []Peer, addr uint32) bool {
 	return best.bits >= 0 && !best.nomatch
 }
 
-// peersMatch: does the address (a pod if peerPod != nil) satisfy the rule's from/to list?
-func (m *refModel) peersMatch(pol *Policy, peers []Peer, addr string, peerPod *Pod) bool {
+// peersMatch: does the address (a pod if peerPod != nil) satisfy the from/to list of rule idx of the policy's
+// ingress (egress=false) or egress rules?
+func (m *refModel) peersMatch(pol *Policy, egress bool, idx int, peers []Peer, addr string, peerPod *Pod) bool {
 	if len(peers) == 0 {
 		return !m.sw.D6
 	}
@@ -100,6 +120,7 @@ func (m *refModel) peersMatch(pol *Policy, peers []Peer, addr string, peerPod *P
 	if m.sw.D13 && mergedBlocksMatch(peers, a) {
 		return true
 	}
+	podish, hasPodish := false, false
 	for i := range peers {
 		pe := &peers[i]
 		if pe.Block != nil {
@@ -108,11 +129,21 @@ func (m *refModel) peersMatch(pol *Policy, peers []Peer, addr string, peerPod *P
 			}
 			continue
 		}
+		hasPodish = true
 		if peerPod != nil && peerMatchesPod(m.cl, pe, pol.NS, peerPod, m.sw) {
-			return true
+			podish = true
 		}
 	}
-	return false
+	if hasPodish && m.over != nil {
+		podish = m.over.member(peerSetName(pol, egress, idx, false), addr, podish)
+	}
+	return podish
+}
+
+// selectedMember: is the address in the policy's set of selected pods?
+func (m *refModel) selectedMember(pol *Policy, addr string, pod *Pod) bool {
+	truth := pod != nil && pod.NS == pol.NS && pol.PodSel.Matches(pod.Labels)
+	return m.over.member(selectedSetName(pol), addr, truth)
 }
 
 func portsMatch(ports []Port, proto string, port int) bool {
@@ -139,6 +170,9 @@ func (m *refModel) sideAllowed(pod *Pod, ingress bool, f Flow) (allowed, isolate
 		otherAddr = f.Dst
 	}
 	otherPod := m.podByIP[otherAddr]
+	if m.over != nil && m.over.invisible[pod.key()] {
+		return true, false
+	}
 	for _, pol := range m.cl.polList() {
 		if pol.NS != pod.NS || !pol.PodSel.Matches(pod.Labels) {
 			continue
@@ -162,9 +196,12 @@ func (m *refModel) sideAllowed(pod *Pod, ingress bool, f Flow) (allowed, isolate
 			if !ingress {
 				rules = pol.Egress
 			}
-			for _, r := range rules {
-				if m.peersMatch(pol, r.Peers, otherAddr, otherPod) && portsMatch(r.Ports, f.Proto, f.Port) {
-					return true, true
+			// the pod's own address has to be in the policy's selected set for any of these rules to match
+			if m.selectedMember(pol, pod.IP, pod) {
+				for i, r := range rules {
+					if m.peersMatch(pol, !ingress, i, r.Peers, otherAddr, otherPod) && portsMatch(r.Ports, f.Proto, f.Port) {
+						return true, true
+					}
 				}
 			}
 		}
@@ -177,9 +214,9 @@ func (m *refModel) sideAllowed(pod *Pod, ingress bool, f Flow) (allowed, isolate
 			} else if !ingress && in {
 				rules = pol.Ingress
 			}
-			if otherPod != nil && otherPod.NS == pol.NS && pol.PodSel.Matches(otherPod.Labels) {
-				for _, r := range rules {
-					if m.peersMatch(pol, r.Peers, pod.IP, pod) && portsMatch(r.Ports, f.Proto, f.Port) {
+			if m.selectedMember(pol, otherAddr, otherPod) {
+				for i, r := range rules {
+					if m.peersMatch(pol, ingress, i, r.Peers, pod.IP, pod) && portsMatch(r.Ports, f.Proto, f.Port) {
 						return true, true
 					}
 				}
@@ -221,7 +258,7 @@ func (m *refModel) allowed(f Flow) bool {
 // both directions, where the other end is any other pod with an address or one of the external addresses
 // (fixed ones plus the centre of every ipBlock exception), TCP and UDP, every port a policy names plus one
 // that none names.
-func flows(cl *Cluster) []Flow {
+func flows(cl *Cluster, extraEnds ...string) []Flow {
 	var ends []string
 	seen := map[string]bool{}
 	add := func(ip string) {
@@ -234,6 +271,9 @@ func flows(cl *Cluster) []Flow {
 		add(p.IP)
 	}
 	for _, e := range externalIPs {
+		add(e)
+	}
+	for _, e := range extraEnds {
 		add(e)
 	}
 	for _, pol := range cl.polList() {
